@@ -160,6 +160,19 @@ def run(c):
     thorough = c.tier == 'thorough'
     work = common.scratch()
     cov = {}
+    import json
+    for e in c.known_entries('fixed'):
+        wt = json.load(open(os.path.join(common.VERIF, e['witness'])))
+        w2 = hfront.World(wt['dirs'], False, True, 2)
+        w2.materialise(os.path.join(work, 'fixed_' + e['id']))
+        empty = hfront.World([], False, True, 3)
+        empty.paths = []
+        g2 = hfront.run_real(lambda: gen_both(wt['v2_yaml'], w2))
+        g3 = hfront.run_real(lambda: gen_both(wt['v3_yaml'], empty))
+        same = g2[0] == g3[0] == 'ok' and g2[1] == g3[1]
+        cov.setdefault('fixed_witnesses', {})[e['id']] = {'identical_files': same}
+        if not same:
+            c.violation(dict(wt, property='C18', kind='a repaired finding is back: ' + e['line']))
     cov['renderers'] = renderer_agreement(c, rnd, 1500 if thorough else 300)
     n = 400 if thorough else 70
     tasks = [(c.seed * 100000 + i, os.path.join(work, f'w{i}')) for i in range(n)]
